@@ -16,7 +16,7 @@ def pipeline_cases(run):
     rng = run.rng
     n = 0
     for it in range(run.n(36, 900)):
-        topo = rng.choice(['chain', 'chain', 'tee', 'rejoin', 'join'])
+        topo = rng.choice(['chain', 'chain', 'tee', 'rejoin', 'join', 'topics'])
         nf = rng.randint(6, 18)
         delay = rng.choice([(0, 0), (0, 20), (0, 80)])
         seed = rng.randrange(10 ** 6)
@@ -30,6 +30,21 @@ def pipeline_cases(run):
             specs = pipes.chain(k, nf, works=works, skips=skips, lazy=rng.random() < 0.3)
             ref = pipes.reference_chain(specs, nf)
             case.update(relays=k, works=works, skips={a: sorted(b) for a, b in skips.items()})
+        elif topo == 'topics':
+            # explicit topic subscriptions (with a remap) on a chain whose relay leaves a subscribed topic out of some frames
+            # and answers others with {}: the sink must see, frame for frame, exactly the topics the relay produced
+            a0, a1 = pipes.addr(0), pipes.addr(1)
+            drop = {q: ['aux'] for q in rng.sample(range(nf), rng.randint(1, 3))}
+            empty_at = set(rng.sample(range(nf), rng.randint(0, 2))) - set(drop)
+            remap = rng.random() < 0.5
+            specs = [dict(id='src', kind='src', n=nf, outputs=a0[0], outputs_required='r1', topics=['main', 'aux']),
+                     dict(id='r1', kind='relay', sources=a0[1] + ';main;aux', outputs=a1[0], outputs_required='sink', work=W(),
+                          drop=drop, empty_at=empty_at),
+                     dict(id='sink', kind='sink', sources=a1[1] + (';main;aux>extra' if remap else ';main;aux'), work=W())]
+            ref = {}
+            aux = 'extra' if remap else 'aux'
+            want_topics = [[] if q in empty_at else ['main'] if q in drop else sorted(['main', aux]) for q in range(nf)]
+            case.update(drop=sorted(drop), empty_at=sorted(empty_at), remap=remap)
         else:
             a0, a1, a2, a3 = pipes.addr(0), pipes.addr(1), pipes.addr(2), pipes.addr(3)
             if topo == 'tee':       # src -> ra -> sa ; src -> rb -> sb
@@ -62,6 +77,15 @@ def pipeline_cases(run):
         if p.world.stats['dropped_hwm']:
             run.count('pipe:runs-with-hwm-drops')
             continue                      # outside the property's assumptions (delays below the request interval keep queues short)
+        if topo == 'topics':
+            got_topics = [sorted(e['data']) for e in rec.inputs('sink')]
+            got_seqs = [sorted({v[1] for v in e['data'].values()}) for e in rec.inputs('sink')]
+            want_seqs = [[] if not t else [q] for q, t in enumerate(want_topics)]
+            if got_topics != want_topics or got_seqs != want_seqs:
+                j = next((i for i in range(max(len(got_topics), len(want_topics)))
+                          if i >= len(got_topics) or i >= len(want_topics) or got_topics[i] != want_topics[i] or got_seqs[i] != want_seqs[i]), 0)
+                run.violation('pipeline:topics frame=%d got=%s want=%s' % (j, got_topics[j:j + 1], want_topics[j:j + 1]),
+                              'explicit subscriptions: the sink saw topic sets %s (seqs %s), the relay produced %s' % (got_topics[:20], got_seqs[:20], want_topics[:20]), case)
         for fid, want in ref.items():
             got = seqs_of(rec, fid)
             flat = [g[0] if len(g) == 1 else tuple(g) for g in got]
